@@ -1023,8 +1023,11 @@ func (e *Evaluator) evalStatement(stmt Statement) error {
 				}
 			}
 		case ValueObj:
-			for _, k := range sortedKeys(*iterable.Value.Obj) {
-				v := (*iterable.Value.Obj)[k]
+			// the loop walks the object it started with, whatever the body does to
+			// the variable that held it
+			obj := *iterable.Value.Obj
+			for _, k := range sortedKeys(obj) {
+				v := obj[k]
 				if indexLocal != nil {
 					indexLocal.Value = v.Value
 				}
